@@ -314,6 +314,17 @@ theorem noOv_closeOut {c : Cfg} {fs0 : FS} (hwf : c.WF) (io : Nat → Fault) (st
       · rw [if_neg hwd]
         exact noOv_moveOut hwf io _ h3 (closeFd_hasOut io _ (by simpa using hr)) (by simpa using hwd)
 
+theorem noOv_sealTail {c : Cfg} {fs0 : FS} (io : Nat → Fault) (s1 : St) (f : File) (h : NoOv c fs0 s1) :
+    NoOv c fs0 (sealTail c io s1 f) := by
+  unfold sealTail
+  split
+  · have h2 := noOv_onOut io s1 _ (fileWrite_le c.gzip [10]) h
+    simp only []
+    split
+    · exact h2
+    · exact NoOv_congr h2 rfl rfl rfl h2.nodiv
+  · exact h
+
 theorem noOv_openNew {c : Cfg} {fs0 : FS} (hwf : c.WF) (io : Nat → Fault) (st : St) (fn : String)
     (h : NoOv c fs0 st) : NoOv c fs0 (openNew c io st fn) := by
   unfold openNew
@@ -346,6 +357,7 @@ theorem noOv_openNew {c : Cfg} {fs0 : FS} (hwf : c.WF) (io : Nat → Fault) (st 
           | some f0 => have := h.excl hx _ f0 h0; rw [hg] at this; cases this
       | some f =>
         simp only []
+        apply noOv_sealTail
         refine ⟨h.keep, h.excl, ?_, fun hw _ => hwd hw, h.dom, by simp [hr]⟩
         intro hx _
         exfalso
@@ -359,15 +371,21 @@ theorem noOv_updateFile {c : Cfg} {fs0 : FS} (hwf : c.WF) (io : Nat → Fault) (
   have h1 := noOv_closeOut hwf io st h
   exact noOv_openNew hwf io _ fn (NoOv_congr h1 rfl rfl rfl h1.nodiv)
 
+theorem noOv_writeLine {c : Cfg} {fs0 : FS} (io : Nat → Fault) (st : St) (m : Msg) (h : NoOv c fs0 st) :
+    NoOv c fs0 (writeLine c io st m) := by
+  unfold writeLine
+  split
+  · exact noOv_onOut io st _ (fileWrite_le c.gzip _) h
+  · exact noOv_onOut io _ _ (fileWrite_le c.gzip _) (noOv_onOut io st _ (fileWrite_le c.gzip _) h)
+
 theorem noOv_writeMsg {c : Cfg} {fs0 : FS} (io : Nat → Fault) (st : St) (m : Msg) (h : NoOv c fs0 st) :
     NoOv c fs0 (writeMsg c io st m) := by
   unfold writeMsg
-  have h2 : NoOv c fs0 (onOut io (onOut io st (fileWrite c.gzip m.body)) (fileWrite c.gzip [10])) :=
-    noOv_onOut io _ _ (fileWrite_le c.gzip _) (noOv_onOut io st _ (fileWrite_le c.gzip _) h)
-  by_cases hr : (onOut io (onOut io st (fileWrite c.gzip m.body)) (fileWrite c.gzip [10])).status ≠ .running
+  have h2 := noOv_writeLine io st m h
+  by_cases hr : (writeLine c io st m).status ≠ .running
   · rw [if_pos hr]; exact h2
   · rw [if_neg hr]
-    by_cases hp : (onOut io (onOut io st (fileWrite c.gzip m.body)) (fileWrite c.gzip [10])).pending.length ≥ c.maxInFlight
+    by_cases hp : (writeLine c io st m).pending.length ≥ c.maxInFlight
     · rw [if_pos hp]; exact NoOv_congr h2 rfl rfl rfl (by simp)
     · rw [if_neg hp]; exact NoOv_congr h2 rfl rfl rfl h2.nodiv
 
@@ -415,6 +433,23 @@ theorem noOv_step {c : Cfg} {fs0 : FS} (hwf : c.WF) (io : Nat → Fault) (st : S
           have := h.excl hx q f0 hq
           have hne : q ≠ p := by intro e; subst e; rw [hfree] at this; cases this
           rw [get_set_ne _ _ _ _ hne]; exact this
+    | extAppend p data =>
+      simp only []
+      cases hg : st.fs.get p with
+      | none => exact h
+      | some f =>
+        simp only []
+        by_cases hx : c.excl = true
+        · rw [if_pos hx]; exact h
+        · rw [if_neg hx]
+          refine ⟨?_, fun hx' => absurd hx' hx, h.own, h.wd, DomOk_set h.dom _ _, h.nodiv⟩
+          intro q f0 hq hk
+          obtain ⟨g, hgq, hl⟩ := h.keep q f0 hq hk
+          by_cases e : q = p
+          · subst e
+            rw [hg] at hgq; cases hgq
+            exact ⟨fileWrite false data f, by simp, FileLe_trans hl (fileWrite_le false data f)⟩
+          · exact ⟨g, by rw [get_set_ne _ _ _ _ e]; exact hgq, hl⟩
 
 theorem noOv_run {c : Cfg} {fs0 : FS} (hwf : c.WF) (io : Nat → Fault) (evs : List (Ev × Bool)) (st : St)
     (h : NoOv c fs0 st) : NoOv c fs0 (run c io st evs) := by
